@@ -205,10 +205,9 @@ class PlayReady(DrmBase):
             "default_kid": default_kid,
             "default_key": default_key,
             "kids": kids,
-            "la_url": la_url.format(cfgs=cfgs,
-                                    default_kid=default_keypair.KID.hex,
-                                    kids=[a["kid"] for a in kids]
-                                    )
+            "la_url": self.expand_la_url(
+                la_url, cfgs=cfgs, default_kid=default_keypair.KID.hex,
+                kids=[a["kid"] for a in kids])
         }
         context["checksum"] = self.generate_checksum(default_keypair)
         header_version = self.header_version
@@ -235,6 +234,18 @@ class PlayReady(DrmBase):
             wrm = wrm[2:]
         return wrm
 
+    @staticmethod
+    def expand_la_url(la_url: str, **fields) -> str:
+        """
+        Replaces the {cfgs}, {default_kid} and {kids} place holders of a
+        license URL. The URL can come from a request, so it is not used as a
+        format string: any other use of braces is left as it is.
+        """
+        def replace(match: re.Match) -> str:
+            return str(fields[match.group(1)])
+
+        return re.sub(r'\{(cfgs|default_kid|kids)\}', replace, la_url)
+
     def generate_pro(self,
                      la_url: str | None,
                      default_kid: str,
@@ -243,6 +254,10 @@ class PlayReady(DrmBase):
         """Generate PlayReady Object (PRO)"""
         wrm = self.generate_wrmheader(
             la_url, default_kid, keys, custom_attributes)
+        if len(wrm) > 0xFFFF:
+            # the length of a PlayReady record is a 16 bit field
+            raise ValueError(
+                f'PlayReady header of {len(wrm)} bytes does not fit into a PlayReady Object')
         record = struct.pack('<HH', 0x001, len(wrm)) + wrm
         pro = struct.pack('<IH', len(record) + 6, 1) + record
         return pro
